@@ -168,13 +168,55 @@ def doc_signature(S):
   return h, kinds
 
 
+DATE_MIN, DATE_MAX = -62135596800 + 2 * 86400, 253402300800 - 2 * 86400
+
+
+def summaries_with_raising_keys(S):
+  """
+  Summary tables one of whose group-by source columns is a Date / DateTime column holding a number that
+  no date represents (NaN, +-inf, beyond year 1..9999): reading such a cell from a formula raises, the
+  summary helper formula of that row fails, and the document is in the trigger state of the open finding
+  C05/summary_rows_with_error_keys (the live engine keeps the row's old group, a fresh engine has none).
+  """
+  T = snapshot.rows_of(S, '_grist_Tables')
+  C = snapshot.rows_of(S, '_grist_Tables_column')
+  out = set()
+  for tr, t in T.items():
+    st = t.get('summarySourceTable')
+    if not st or st not in T or T[st]['tableId'] not in S:
+      continue
+    for c in C.values():
+      sc = c.get('summarySourceCol')
+      if c['parentId'] == tr and sc and sc in C and str(C[sc]['type']).split(':')[0] in ('Date', 'DateTime'):
+        vals = S[T[st]['tableId']][1].get(C[sc]['colId']) or []
+        for v in vals:
+          if v == snapshot.NAN or (isinstance(v, (int, float)) and not isinstance(v, bool) and not DATE_MIN < v < DATE_MAX):
+            out.add(t['tableId'])
+  return out
+
+
 class ReopenMonitor(histories.Monitor):
+  MUTATES = True
+
   def __init__(self, every):
     self.every = every
     self.n = 0
     self.last_compared_step = None
+    self.tainted = False
 
   def after_bundle(self, h, ctx):
+    if self.tainted:
+      return
+    if ctx.reply is not None and summaries_with_raising_keys(ctx.S1):
+      # Quarantine (DESIGN.md 3.6): the bundle took the document into the trigger state of a listed C05 finding; it is
+      # taken back with its own undo actions. The finding is replayed by the witness shard of every run.
+      h.acc.count('bundles_taken_back_open_finding_trigger')
+      h.apply([['ApplyUndoActions', json.loads(json.dumps(ctx.reply.undo))]], 'take-back')
+      if snapshot.diff(ctx.S0, h.snap(), maxn=1):
+        h.acc.count('histories_cut_short_open_finding_trigger')
+        self.tainted = True
+        self.S = None
+      return
     self.n += 1
     self.S = ctx.S1
     self.step = ctx.step
@@ -182,7 +224,7 @@ class ReopenMonitor(histories.Monitor):
       self.compare(h, ctx.S1, ctx.bundle)
 
   def end(self, h):
-    if getattr(self, 'S', None) is not None and self.last_compared_step != self.step:
+    if not self.tainted and getattr(self, 'S', None) is not None and self.last_compared_step != self.step:
       self.compare(h, self.S, None)
 
   def compare(self, h, S, bundle):
